@@ -41,6 +41,7 @@ type Clause struct {
 }
 
 type LoopSpec struct {
+	Entry      []*Clause // assertions checked when the loop is first reached (not maintained)
 	Invariants []*Clause
 	Modifies   []*Clause // nil = everything the body may write (inferred families)
 	HasMod     bool
@@ -498,6 +499,10 @@ func (cs *ContractSet) parseFile(fset *token.FileSet, f *ast.File, pkgPath, file
 						case "invariant":
 							if c := mkClause(rest3); c != nil {
 								ls.Invariants = append(ls.Invariants, c)
+							}
+						case "entry":
+							if c := mkClause(rest3); c != nil {
+								ls.Entry = append(ls.Entry, c)
 							}
 						case "modifies":
 							ls.HasMod = true
